@@ -152,10 +152,13 @@ def run(prog, chk):
             atoms = fin.dominating_atoms(f, f.node_pos(r))
             hit = [a for a in atoms if a[0] != "case" and any(x in f.desc(a[0]) for x in prims)]
             good = False
+            fail_v = -1 if prim == "sem_timedwait" else 110          # what the primitive returns on a timeout
             for a in hit:
-                t = fin.key(f, a[0])
-                # the failing outcome of the primitive: `prim(...) != 0` true, or `prim(...) == -1` true
-                if (("!= 0" in t or "== -1" in t) and a[1]) or (("== 0" in t) and not a[1]):
+                # the edge is taken when the primitive failed and not when it succeeded (whatever the comparison is spelled like)
+                pk = [fin.key(f, x) for x in prims if x in f.desc(a[0])]
+                vf = fin.eval_expr(f, a[0], {k: fail_v for k in pk})
+                vs = fin.eval_expr(f, a[0], {k: 0 for k in pk})
+                if vf is not None and vs is not None and bool(vf) == a[1] and bool(vs) != a[1]:
                     good = True
             if not good and name == "Semaphore::wait":
                 # fallback loop for ENOSYS: `return false` after the polling loop ran out
